@@ -179,13 +179,23 @@ let sent_of_step (step_obs : Sexp.t) : Sexp.t option option =
     | Some (Sexp.L (Sexp.A "sent" :: _ :: p :: _)) -> Some (Some p)
     | _ -> None
 
+(* with (opts (sizes 1)) the runner also reports the encoded size of the packet it sent: (sent C PKT SIZE) *)
+let sent_size_of_step (step_obs : Sexp.t) : Sexp.t option =
+  let entries = match step_obs with Sexp.L (Sexp.A "s" :: es) -> es | _ -> [] in
+  match List.find_opt (fun e -> match e with Sexp.L (Sexp.A "sent" :: _) -> true | _ -> false) entries with
+  | Some (Sexp.L [Sexp.A "sent"; _; _; sz]) -> Some sz
+  | _ -> None
+
 let event_of_sx (step : Sexp.t) (step_obs : Sexp.t) : event option = match Sexp.list step with
   | Sexp.A "connect" :: c :: ver :: rest -> Some (EConnect (n_of_sx c, connect_of_sx ver rest))
   | [Sexp.A "open"; c] -> Some (EOpen (n_of_sx c))
   | [Sexp.A "send"; c; p] ->
     (match sent_of_step step_obs with
      | Some None -> None
-     | Some (Some p') -> Some (ESend (n_of_sx c, pkt_of_sx p'))
+     | Some (Some p') ->
+       (match sent_size_of_step step_obs with
+        | Some sz -> Some (ESendSz (n_of_sx c, pkt_of_sx p', n_of_sx sz))
+        | None -> Some (ESend (n_of_sx c, pkt_of_sx p')))
      | None -> Some (ESend (n_of_sx c, pkt_of_sx p)))
   | [Sexp.A "close"; c] -> Some (EClose (n_of_sx c))
   | [Sexp.A "api_publish"; m] -> Some (EApiPublish (msg_of_sx m))
@@ -270,6 +280,24 @@ let resolve_aliases (steps : (int * Sexp.t list * bool) list list) =
               | _ -> x)
            | _ -> x) pk, o)) step) steps
 
+(* copies that are identical but for the packet id (e.g. retransmissions, which have lost their subscription
+   identifiers) are interchangeable: after the renaming, order each maximal run of such twins by id *)
+let rec sort_twins (l : Sexp.t list) : Sexp.t list =
+  match l with
+  | [] -> []
+  | x :: _ when is_publish x ->
+    let k = strip_pid x in
+    let rec take acc = function
+      | y :: r when is_publish y && strip_pid y = k -> take (y :: acc) r
+      | r -> (List.rev acc, r) in
+    let (run, rest) = take [] l in
+    let pidnum y = match y with
+      | Sexp.L [Sexp.A "publish"; _; _; _; _; _; Sexp.A pid; _] ->
+        (try int_of_string (String.sub pid 1 (String.length pid - 1)) with _ -> 0)
+      | _ -> 0 in
+    List.stable_sort (fun a b -> compare (pidnum a) (pidnum b)) run @ sort_twins rest
+  | x :: rest -> x :: sort_twins rest
+
 (* rename broker-assigned packet ids per socket by first appearance (outbound flows) *)
 let rename_pids (steps : (int * Sexp.t list * bool) list list) : (int * Sexp.t list * bool) list list =
   let steps = resolve_aliases steps in
@@ -286,6 +314,7 @@ let rename_pids (steps : (int * Sexp.t list * bool) list list) : (int * Sexp.t l
            | Sexp.L [Sexp.A "publish"; d; q; r; t; p; Sexp.A pid; ps] -> Sexp.L [Sexp.A "publish"; d; q; r; t; p; Sexp.A (ren c pid); ps]
            | Sexp.L [Sexp.A "pubrel"; Sexp.A pid; cd; ps] -> Sexp.L [Sexp.A "pubrel"; Sexp.A (ren c pid); cd; ps]
            | _ -> x) (sort_runs (split_flows pk)), o)) step) steps
+  |> List.map (fun step -> List.map (fun (c, pk, o) -> (c, sort_twins pk, o)) step)
 
 let sx_steps steps =
   Sexp.L (List.map (fun step -> Sexp.L (Sexp.A "s" :: List.map (fun (c, pk, o) ->
@@ -344,9 +373,16 @@ and run_with' (oracle : oracle_fn) (input : Sexp.t) (impl : Sexp.t) : Verdict.t 
                 let o = model_step_obs s' outs in
                 if mask o = im then Some (s', o :: acc) else None in
               let (s_probe, _) = Model.step (set_picks_tag [] s.b_tag s) ev in
-              if s_probe.b_npick = s.b_npick then (match try_cv [] with Some r -> [r] | None -> [])
+              let k = int_of_n s_probe.b_npick - int_of_n s.b_npick in
+              if k = 0 then (match try_cv [] with Some r -> [r] | None -> [])
+              else if k <= 5 then
+                (* every vector of k picks over 0..3 (a pick is taken modulo the number of candidates) *)
+                let rec vecs k = if k = 0 then [[]] else List.concat_map (fun v -> List.map (fun x -> x :: v) [0; 1; 2; 3]) (vecs (k - 1)) in
+                List.filter_map try_cv (vecs k)
               else List.filter_map try_cv choice_vectors) frontier in
-        let next = List.filteri (fun i _ -> i < 24) next in
+        (* different picks often lead to the same state: keep one of each, and at most 64 *)
+        let next = List.sort_uniq (fun (s1, a1) (s2, a2) -> compare (List.hd a1, s1) (List.hd a2, s2)) next in
+        let next = List.filteri (fun i _ -> i < 64) next in
         if next = [] then
           (* no choice explains this step: continue on the default path so that the report shows the first difference *)
           (match frontier with
